@@ -176,6 +176,37 @@ pub fn run(args: &[String]) {
             }
         }
     }
+    // directed: a whole backward run shorter than the lookup slack whose landing segment ends one ulp short of xend: sol(xend)
+    // must be the last sample (the lookup then has several segments within the slack of t and must not take the first one)
+    {
+        struct Sho(f64);
+        impl IVP for Sho { fn ode(&self, _x: f64, y: &[f64], d: &mut [f64]) { d[0] = y[1] / self.0; d[1] = -y[0] / self.0; } }
+        let mut k = 0;
+        for (method, tau) in [(Method::DOPRI5, 1.27778e-13f64), (Method::RADAU, 1.05848e-13), (Method::DOP853, 1.2192e-13), (Method::BDF, 1.27778e-13), (Method::RK23, 1.27778e-13)] {
+            let (x0, xend) = (3.1 * tau, 0.1 * tau);
+            let y0 = [(x0 / tau).cos(), -(x0 / tau).sin()];
+            let o = Options::builder().method(method).rtol(1e-6).atol(1e-9).dense_output(true).build();
+            let (status, bad) = match std::panic::catch_unwind(std::panic::AssertUnwindSafe(|| solve_ivp(&Sho(tau), x0, xend, &y0, o))) {
+                Ok(Ok(sol)) => {
+                    let mut bad = None;
+                    if sol.status == Status::Success {
+                        let (tl, yl) = (*sol.t.last().unwrap(), sol.y.last().unwrap().clone());
+                        match sol.sol(tl) {
+                            Ok(v) => if !close(&v, &yl, 1e-6) { bad = Some(format!("backward run over [{:e}, {:e}]: sol(t_last) = {:?} but the last sample is {:?} (sol_span {:?})", x0, xend, v, yl, sol.sol_span())); },
+                            Err(e) => bad = Some(format!("sol(t_last) fails: {:?}", e)),
+                        }
+                    }
+                    (format!("{:?}", sol.status), bad)
+                }
+                Ok(Err(e)) => (format!("Err({:?})", e), None),
+                Err(_) => ("panic".to_string(), Some("solve_ivp panicked".to_string())),
+            };
+            if bad.is_some() { n_fail += 1; }
+            println!("{{\"kind\":\"dense\",\"case\":\"tiny-backward-landing-{}\",\"problem\":\"scaled oscillator tau={:e}\",\"method\":\"{}\",\"status\":\"{}\",\"finding_key\":\"c06-tiny-span-landing-segment\",\"ok\":{},\"why\":{:?}}}",
+                k, tau, method_name(method), status, bad.is_none(), bad.unwrap_or_default());
+            k += 1;
+        }
+    }
     // directed: the last sample is xend itself while the last dense segment ends at xold + h, which may differ from xend by
     // a rounding error: the continuous solution must still answer at every reported time (and at xend)
     {
